@@ -144,24 +144,29 @@ theorem pooled_present :
      pooled.all (·.deferredPut) &&
      pooled.all fun p => ["copy", "alias", "value"].contains p.result) = true := by decide
 
-/-- **C08 per pooled API, decided by the generated copy fact**: a returned buffer is never written
-again if the API copies out; otherwise two goroutines overwrite it. -/
-theorem C08_pooled_apis (p : Pooled) (_hp : p ∈ pooled) :
-    (copiesOut p = true →
-      ∀ {X S R : Type} (resetf : S → S) (stepf : S → X → S) (outf : S → R) (new : S) {σ σ' : State X S R} {l : Loc},
-        Reachable resetf stepf outf new (copiesOut p) σ → Step resetf stepf outf new (copiesOut p) σ (.write l) σ' →
-        l ∉ σ.held) ∧
-    (copiesOut p = false →
-      ∃ (σ σ' : State Unit Unit Unit) (l : Loc),
-        Reachable (fun s => s) (fun s _ => s) (fun s => s) () (copiesOut p) σ ∧
-        Step (fun s => s) (fun s _ => s) (fun s => s) () (copiesOut p) σ (.write l) σ' ∧ l ∈ σ.held) := by
-  constructor
-  · intro hc X S R resetf stepf outf new σ σ' l hr hs
-    exact no_write_after_return resetf stepf outf new _ hc hr hs
-  · intro hc
-    rw [hc]
-    obtain ⟨σ, σ', l, h1, h2, h3, _⟩ := C08_alias_witness
-    exact ⟨σ, σ', l, h1, h2, h3⟩
+/-- the source as it is (fix 8ba4b2d: `sen.Bytes` copies on the pooled path): every pooled function
+hands out a copy or no buffer at all. Re-evaluated over the regenerated list; on the source before
+the fix `sen.Bytes` is classified "alias" and this proof fails. -/
+theorem pooled_all_copy_out : pooled.all copiesOut = true := by decide
+
+/-- **C08 per pooled API** (repaired code): whatever the interleaving, no step of any goroutine
+writes a location that one of these functions returned to a caller. -/
+theorem C08_pooled_apis (p : Pooled) (hp : p ∈ pooled)
+    {X S R : Type} (resetf : S → S) (stepf : S → X → S) (outf : S → R) (new : S) {σ σ' : State X S R} {l : Loc}
+    (hr : Reachable resetf stepf outf new (copiesOut p) σ)
+    (hs : Step resetf stepf outf new (copiesOut p) σ (.write l) σ') : l ∉ σ.held := by
+  have h := pooled_all_copy_out
+  simp only [List.all_eq_true] at h
+  exact no_write_after_return resetf stepf outf new _ (h p hp) hr hs
+
+/-- the code before 8ba4b2d (known finding C08-sen-bytes-pooled, now fixed): an API that returns the
+pooled instance's own buffer — two goroutines overwrite it (`C08_alias_witness`) -/
+theorem C08_pooled_apis_before :
+    ∃ (σ σ' : State Unit Unit Unit) (l : Loc),
+      Reachable (fun s => s) (fun s _ => s) (fun s => s) () false σ ∧
+      Step (fun s => s) (fun s _ => s) (fun s => s) () false σ (.write l) σ' ∧ l ∈ σ.held := by
+  obtain ⟨σ, σ', l, h1, h2, h3, _⟩ := C08_alias_witness
+  exact ⟨σ, σ', l, h1, h2, h3⟩
 
 /-- the string-returning pooled APIs (`oj.JSON`, `sen.String`) and `oj.Marshal` copy out -/
 theorem string_apis_copy :
@@ -176,6 +181,14 @@ theorem caches_locked :
     (caches.map (·.pkg) == ["oj", "sen", "alt"] &&
      caches.all fun c => c.unlockedRoots.isEmpty && c.reassigned.isEmpty && c.beforeLockPlain &&
        c.lockers == ["getSinfo"]) = true := by decide
+
+/-- **Struct-info caches and "what it returns when run alone"** (fix 8169704): the plan a write uses
+for a nested struct field is the one for this call's OmitEmpty flag whatever the caches hold, i.e.
+whichever goroutine cached what first (`C07.C07_struct_cache` over the regenerated
+`typeStructEmpty`; before the fix: `C07.C07_struct_cache_before`). -/
+theorem caches_order_free (c1 c2 : Reuse.Cache) (h1 : c1.wf) (h2 : c2.wf) (t : Nat) (om : Bool) :
+    (Reuse.getTypeStruct C07.cacheSelectsByFlag c1 t om).1 = (Reuse.getTypeStruct C07.cacheSelectsByFlag c2 t om).1 :=
+  C07.C07_struct_cache c1 c2 h1 h2 t om
 
 /-- **Shared scripts**: no function of package jp assigns to `Script.template` or an element of it
 after construction (evaluation copies the template into a per-call stack) -/
